@@ -492,22 +492,18 @@ func (h *H) addFwd(a abi.ABI, origin string, inQuant bool) []pdesc {
 			ok = ok && ok1 && ok2
 			ms = append(ms, fmt.Sprintf("(mkMethod %s %s %s)", cb(m.Name), p, r))
 			convs = append(convs, conv{0, m.Name, pd, rd})
-			schemas = append(schemas, pd...)
-			schemas = append(schemas, rd...)
 		}
 		for _, m := range f.Events {
 			p, pd, ok1 := coqFFIParams(m.Params)
 			ok = ok && ok1
 			evs = append(evs, fmt.Sprintf("(mkMethod %s %s [])", cb(m.Name), p))
 			convs = append(convs, conv{1, m.Name, pd, nil})
-			schemas = append(schemas, pd...)
 		}
 		for _, m := range f.Errors {
 			p, pd, ok1 := coqFFIParams(m.Params)
 			ok = ok && ok1
 			ers = append(ers, fmt.Sprintf("(mkMethod %s %s [])", cb(m.Name), p))
 			convs = append(convs, conv{2, m.Name, pd, nil})
-			schemas = append(schemas, pd...)
 		}
 		if !ok {
 			h.st.ImplFailures = append(h.st.ImplFailures, map[string]interface{}{"what": "ConvertABIToFFI produced a parameter schema that is not a JSON object decodable as a Schema", "abi": json.RawMessage(raw)})
@@ -532,6 +528,8 @@ func (h *H) addFwd(a abi.ABI, origin string, inQuant bool) []pdesc {
 		return convs[i].kind < convs[j].kind || (convs[i].kind == convs[j].kind && convs[i].name < convs[j].name)
 	})
 	for _, c := range convs {
+		schemas = append(schemas, c.params...)
+		schemas = append(schemas, c.returns...)
 		back, bcls := h.addBack(c.kind, c.name, c.params, c.returns, "roundtrip", false)
 		if !inQuant {
 			continue
@@ -875,7 +873,14 @@ func mutate(r *cv.Rand, root *jv) (string, bool) {
 	case c <= 11: // JSON type at odds with the Ethereum type
 		t := jsonTypes[r.Intn(len(jsonTypes))]
 		if n.get("oneOf") != nil && r.Bool() {
-			n.set("oneOf", jarr(jobj(kv{"type", jstr("string")}), jobj(kv{"type", jstr(t)})))
+			alts := []*jv{jobj(kv{"type", jstr("string")}), jobj(kv{"type", jstr(t)})}
+			switch r.Intn(4) {
+			case 0: // non-string alternative first
+				alts[0], alts[1] = alts[1], alts[0]
+			case 1: // three alternatives: the last non-string one counts
+				alts = append(alts, jobj(kv{"type", jstr(jsonTypes[r.Intn(len(jsonTypes))])}))
+			}
+			n.set("oneOf", jarr(alts...))
 		} else {
 			n.del("oneOf")
 			n.set("type", jstr(t))
@@ -892,7 +897,18 @@ func mutate(r *cv.Rand, root *jv) (string, bool) {
 		return "none", false
 	case c == 14: // a second spelling of a key, which encoding/json matches case-insensitively
 		k := []string{"Details", "DETAILS", "Items", "Properties", "Type", "OneOf", "details", "items"}[r.Intn(8)]
-		n.o = append(n.o, kv{k, otherKind(r)})
+		var v *jv
+		switch r.Intn(6) {
+		case 0: // a nil member, invisible to the jsonschema compile under this spelling
+			v = jobj(kv{"a", jnull()})
+		case 1: // a member map of its own
+			v = jobj(kv{"zz", jobj(kv{"type", jstr("string")}, kv{"details", jobj(kv{"type", jstr("string")}, kv{"index", jnum(fmt.Sprint(r.Intn(3)))})})})
+		case 2:
+			v = jobj(kv{"type", jstr(ethTypes[r.Intn(len(ethTypes))])}, kv{"index", jnum(fmt.Sprint(r.Intn(3) - 1))})
+		default:
+			v = otherKind(r)
+		}
+		n.o = append(n.o, kv{k, v})
 		return "duplicate-key", false
 	case c == 15:
 		if p := n.get("properties"); p.isObj() && len(p.o) > 0 {
@@ -1088,6 +1104,12 @@ func main() {
 		{"x", `{"type":"object","details":{"type":"uint256"}}`},
 		{"x", `{"type":"array","details":{"type":"tuple"},"items":{"type":"object"}}`},
 		{"x", `{"type":"object","details":{"type":"tuple[]"}}`},
+		{"x", `{"type":"object","details":{"type":"tuple"},"Properties":{"a":null}}`}, // nil member under a spelling the jsonschema compile does not look at
+		{"x", `{"type":"array","details":{"type":"tuple[]"},"items":{"type":"object","Properties":{"a":null}}}`},
+		{"x", `{"type":"array","details":{"type":"uint8[]"},"Items":null,"items":{"type":"string"}}`},
+		{"x", `{"oneOf":[{"type":"string"},{"type":"integer"},{"type":"boolean"}],"details":{"type":"uint256"}}`},
+		{"x", `{"oneOf":[{"type":"string"},{"type":"boolean"},{"type":"integer"}],"details":{"type":"uint256"}}`},
+		{"x", `{"oneOf":[{"type":"integer"},{"type":"string"}],"details":{"type":"uint256"}}`},
 		{"x", `null`}, {"x", `true`}, {"x", `{}`}, {"x", `[]`}, {"x", `5`}, {"x", `{"type":"string"}`}, {"x", `not json`}, {"x", ``},
 		{"x", `{"type":"string","details":{"type":"uint256"}}`},
 		{"x", `{"type":"string","details":{"type":"uint7"}}`},
